@@ -1419,7 +1419,31 @@ func checkTokenize(c *Ctx) {
 	want := map[string]int{"query.newTokenSearch": 1, "query.newTokenKV": 2, "query.newTokenKVV": 3}
 	seenCtor := map[string]bool{}
 	var lastTest *ssa.If
-	for _, cl := range Calls(tk) {
+	// the constructors may be called from a same-package helper that is handed the chunks and whose error is propagated
+	ctorFn, ctorChunks := tk, chunks
+	hasCtor := func(f *ssa.Function) bool {
+		for _, cl := range Calls(f) {
+			if _, ok := want[cl.Name]; ok {
+				return true
+			}
+		}
+		return false
+	}
+	if !hasCtor(tk) {
+		for _, cl := range Calls(tk) {
+			h := cl.Instr.Common().StaticCallee()
+			if h == nil || len(h.Blocks) == 0 || fnPkgPath(h) != fnPkgPath(tk) || !hasCtor(h) || cl.Value() == nil || !errorPropagated(cl.Value(), nil) {
+				continue
+			}
+			for ai, av := range cl.Instr.Common().Args {
+				if av == chunks && ai < len(h.Params) {
+					ctorFn, ctorChunks = h, ssa.Value(h.Params[ai])
+					c.seeFn(funcName(h))
+				}
+			}
+		}
+	}
+	for _, cl := range Calls(ctorFn) {
 		n, isCtor := want[cl.Name]
 		if !isCtor {
 			continue
@@ -1434,7 +1458,7 @@ func checkTokenize(c *Ctx) {
 			}
 			lc, isCall := bo.X.(*ssa.Call)
 			k, isK := constInt(bo.Y)
-			if isCall && isK && len(lc.Common().Args) == 1 && lc.Common().Args[0] == chunks && int(k) == n {
+			if isCall && isK && len(lc.Common().Args) == 1 && lc.Common().Args[0] == ctorChunks && int(k) == n {
 				if bi, isB := lc.Common().Value.(*ssa.Builtin); isB && bi.Name() == "len" {
 					okArity = true
 					if n == 3 {
@@ -1458,7 +1482,7 @@ func checkTokenize(c *Ctx) {
 			if isIA {
 				k, isK = constInt(ia.Index)
 			}
-			if !isIA || ia.X != chunks || !isK || int(k) != i {
+			if !isIA || ia.X != ctorChunks || !isK || int(k) != i {
 				okArgs = false
 			}
 		}
